@@ -51,11 +51,11 @@ def run(chk, replay=None):
     S = 1 if chk.thorough else 12           # stride of the sample of the other modules' lines
     plan = [
         ('NixMisuse', 'MC_NixMisuse.cfg', 1, {}, None),
-        ('NixFile', 'MC_NixFile_c04a_q.cfg', S, {'names': chk.seed, 'ballast': -1}, None),
-        ('NixFile', 'MC_NixFile_c08a_q.cfg', S, {'names': chk.seed, 'reopen_check': True, 'ballast': -1}, None),
-        ('NixFile', 'MC_NixFile_c11a_q.cfg', S, {'names': chk.seed, 'ballast': -1}, None),
-        ('NixFile', 'MC_NixFile_c02g_q.cfg', max(1, S // 4), {'names': chk.seed, 'ballast': -1}, None),
-        ('NixFile', 'MC_NixFile_c20c_q.cfg', S * 4, {'names': chk.seed, 'ignore_handles': True, 'ballast': -1}, None),
+        ('NixFile', 'MC_NixFile_c04a_q.cfg', S, {'names': chk.seed, 'ballast': 0}, None),
+        ('NixFile', 'MC_NixFile_c08a_q.cfg', S, {'names': chk.seed, 'reopen_check': True, 'ballast': 0}, None),
+        ('NixFile', 'MC_NixFile_c11a_q.cfg', S, {'names': chk.seed, 'ballast': 0}, None),
+        ('NixFile', 'MC_NixFile_c02g_q.cfg', max(1, S // 4), {'names': chk.seed, 'ballast': 0}, None),
+        ('NixFile', 'MC_NixFile_c20c_q.cfg', S * 4, {'names': chk.seed, 'ignore_handles': True, 'ballast': 0}, None),
         ('MC_NixRetrieval', 'MC_NixRetrieval_tag1.cfg', S, {'axes': 'quick'}, None),
         ('MC_NixRetrieval', 'MC_NixRetrieval_slice.cfg', S, {'axes': 'quick'}, None),
         ('MC_NixRetrieval', 'MC_NixRetrieval_multi.cfg', max(1, S // 2), {'axes': 'quick'}, None),
